@@ -9,7 +9,8 @@ from ..synth import Synth
 STREAMS = ["yaml"]
 RULE = ("YAML documents with a pipeline of 1..8 elements, every element one of: !Tag with mapping / sequence / no "
         "arguments (lazy and eager tag settings), legacy __type__ mapping with keyword items; argument values = "
-        "scalars, nested lists and mappings; a constructor failing at a random position in 20% of the documents; loaded "
+        "scalars, nested lists and mappings; a constructor failing at a random position in 20% of the documents with one of ten exception types (TypeError, "
+        "KeyError, ... included); legacy elements may nest further __type__ mappings in their arguments; 15% of the elements are falsy objects (container-like, __len__ == 0); loaded "
         "through cobald.daemon.core.config.load from a temporary .yaml file; non-trivial = at least 3 elements of at "
         "least 2 syntactic forms; distinct = distinct YAML text")
 ASSUMPTIONS = ["PyYAML's mapping of nodes to construct_mapping / construct_sequence results (modelled as keywords / positionals)",
@@ -20,12 +21,21 @@ MODULE = '''
 from cobald.interfaces import Controller, PoolDecorator, Pool
 import copy
 LOG = []
-FAIL = set()
+FAIL = {}
+HELPER_LOG = []
+
+def helper(*args, **kwargs):
+    """a factory nested inside the arguments of a legacy element"""
+    HELPER_LOG.append((args, dict(kwargs)))
+    out = {"$helper": dict(kwargs)}
+    if args:
+        out["$args"] = list(args)
+    return out
 
 class _Rec:
     def _record(self, cid, args, kwargs):
         if cid in FAIL:
-            raise ValueError("constructor %d fails" % cid)
+            raise FAIL[cid]("constructor %d fails" % cid)
         self._cid, self._args, self._kwargs = cid, copy.deepcopy(list(args)), copy.deepcopy(dict(kwargs))
         LOG.append(self)
 
@@ -48,6 +58,17 @@ E0 = _mk(0, Controller)
 for _i in range(1, 8):
     globals()["E%d" % _i] = _mk(_i, PoolDecorator)
 P8 = _mk(8, Pool)
+
+def _falsy(cls):
+    """same element, but the object is falsy (container-like, empty)"""
+    class F(cls):
+        def __len__(self):
+            return 0
+    F.__name__ = F.__qualname__ = cls.__name__ + "F"
+    return F
+for _i in range(0, 8):
+    globals()["E%dF" % _i] = _falsy(globals()["E%d" % _i])
+P8F = _falsy(P8)
 '''
 
 CTX = {}
@@ -62,13 +83,15 @@ def setup(sy):
     importlib.invalidate_caches()
     mod = importlib.import_module("vh_c05mod")
     CTX["mod"] = mod
-    for i in range(0, 8):
-        cls = getattr(mod, "E%d" % i)
-        COBalDLoader.add_constructor("!VhE%dLazy" % i, yaml_constructor(cls.s, eager=False))
-        COBalDLoader.add_constructor("!VhE%dEager" % i, yaml_constructor(cls.s, eager=True))
-    COBalDLoader.add_constructor("!VhP8Lazy", yaml_constructor(mod.P8.s, eager=False))
-    COBalDLoader.add_constructor("!VhP8Eager", yaml_constructor(mod.P8.s, eager=True))
-    COBalDLoader.add_constructor("!VhP8Raw", yaml_constructor(mod.P8, eager=True))
+    for f in ("", "F"):
+        for i in range(0, 8):
+            cls = getattr(mod, "E%d%s" % (i, f))
+            COBalDLoader.add_constructor("!VhE%d%sLazy" % (i, f), yaml_constructor(cls.s, eager=False))
+            COBalDLoader.add_constructor("!VhE%d%sEager" % (i, f), yaml_constructor(cls.s, eager=True))
+        P8 = getattr(mod, "P8" + f)
+        COBalDLoader.add_constructor("!VhP8%sLazy" % f, yaml_constructor(P8.s, eager=False))
+        COBalDLoader.add_constructor("!VhP8%sEager" % f, yaml_constructor(P8.s, eager=True))
+        COBalDLoader.add_constructor("!VhP8%sRaw" % f, yaml_constructor(P8, eager=True))
 
 
 def gen_value(rng, depth=2):
@@ -80,6 +103,21 @@ def gen_value(rng, depth=2):
     return {rng.choice(["p", "q", "r"]): gen_value(rng, depth - 1) for _ in range(rng.randint(0, 2))}
 
 
+FAIL_EXC = ["ValueError", "TypeError", "KeyError", "AssertionError", "RuntimeError", "LookupError", "AttributeError",
+            "IndexError", "OSError", "NotImplementedError"]
+
+
+def yaml_value(v):
+    """configured value -> what is written into the document"""
+    if isinstance(v, dict) and "$helper" in v:
+        return {"__type__": "vh_c05mod.helper", **v["$helper"]}
+    if isinstance(v, dict):
+        return {k: yaml_value(x) for k, x in v.items()}
+    if isinstance(v, list):
+        return [yaml_value(x) for x in v]
+    return v
+
+
 def gen_case(rng):
     n = rng.randint(1, 8)
     elems = []
@@ -89,7 +127,7 @@ def gen_case(rng):
         form = rng.choice(["map", "seq", "bare", "legacy"])
         if last:
             form = rng.choice(["map", "seq", "bare", "legacy", "raw"])
-        e = {"ctor": cid, "form": form, "eager": rng.random() < 0.5, "args": [], "kwargs": []}
+        e = {"ctor": cid, "form": form, "eager": rng.random() < 0.5, "args": [], "kwargs": [], "falsy": rng.random() < 0.15}
         if form in ("map", "legacy"):
             for k in rng.sample(["interval", "rate", "name", "opts", "x"], rng.randint(0 if form == "legacy" else 1, 3)):
                 e["kwargs"].append([k, gen_value(rng)])
@@ -97,13 +135,17 @@ def gen_case(rng):
             e["args"] = [gen_value(rng) for _ in range(rng.randint(1, 3))]
         elems.append(e)
     fail = [rng.choice(elems)["ctor"]] if rng.random() < 0.2 else []
-    return {"elems": elems, "fails": fail}
+    # legacy elements may hold further __type__ mappings inside their arguments
+    for e in elems:
+        if e["form"] == "legacy" and rng.random() < 0.4:
+            e["kwargs"].append([rng.choice(["aux", "helper"]), {"$helper": {k: rng.choice([1, "s", None]) for k in rng.sample(["p", "q"], rng.randint(0, 2))}}])
+    return {"elems": elems, "fails": fail, "fail_exc": rng.choice(FAIL_EXC)}
 
 
 def to_yaml(case):
     lines = ["pipeline:"]
     for e in case["elems"]:
-        name = ("P8" if e["ctor"] == 8 else "E%d" % e["ctor"])
+        name = ("P8" if e["ctor"] == 8 else "E%d" % e["ctor"]) + ("F" if e.get("falsy") else "")
         tag = "!Vh%s%s" % (name, "Raw" if e["form"] == "raw" else ("Eager" if e["eager"] else "Lazy"))
         if e["form"] == "bare":
             lines.append("  - %s" % tag)
@@ -116,7 +158,7 @@ def to_yaml(case):
         else:
             lines.append("  - __type__: vh_c05mod.%s" % name)
             for k, v in e["kwargs"]:
-                lines.append("    %s: %s" % (k, json.dumps(v)))
+                lines.append("    %s: %s" % (k, json.dumps(yaml_value(v))))
     return "\n".join(lines) + "\n"
 
 
@@ -125,7 +167,8 @@ def impl(case):
     mod = CTX["mod"]
     del mod.LOG[:]
     mod.FAIL.clear()
-    mod.FAIL.update(case["fails"])
+    import builtins
+    mod.FAIL.update({c: getattr(builtins, case.get("fail_exc", "ValueError")) for c in case["fails"]})
     fd, path = tempfile.mkstemp(suffix=".yaml", dir=CTX["dir"])
     with os.fdopen(fd, "w") as f:
         f.write(to_yaml(case))
@@ -145,8 +188,18 @@ def impl(case):
         nxt = objs[i + 1] if i + 1 < len(objs) else None
         links.append((getattr(o, "target", None) is nxt) if nxt is not None else not hasattr(o, "target") or o.target is None)
 
+    def plain(v):
+        # anything that is not configuration data (e.g. a pool object smuggled into a nested factory) by type name
+        if isinstance(v, dict):
+            return {k: plain(x) for k, x in v.items()}
+        if isinstance(v, (list, tuple)):
+            return [plain(x) for x in v]
+        if v is None or isinstance(v, (bool, int, float, str)):
+            return v
+        return "<%s>" % type(v).__name__
+
     def canon(o):
-        return {"ctor": o._cid, "args": o._args, "kwargs": sorted([k, v] for k, v in o._kwargs.items()),
+        return {"ctor": o._cid, "args": plain(o._args), "kwargs": sorted(([k, plain(v)] for k, v in o._kwargs.items()), key=lambda kv: kv[0]),
                 "target": canon(o.target) if getattr(o, "target", None) is not None else None}
     return {"objs": [canon(o) for o in objs], "log": [o._cid for o in mod.LOG], "links": links,
             "once": len({id(o) for o in mod.LOG}) == len(mod.LOG)}
@@ -179,7 +232,7 @@ def expect(case, o, m):
     def conv(x):
         if x is None:
             return None
-        return {"ctor": x["ctor"], "args": [ids[a] for a in x["args"]], "kwargs": sorted([k, ids[a]] for k, a in x["kwargs"]),
+        return {"ctor": x["ctor"], "args": [ids[a] for a in x["args"]], "kwargs": sorted(([k, ids[a]] for k, a in x["kwargs"]), key=lambda kv: kv[0]),
                 "target": conv(x["target"])}
     mo = None if m["objs"] is None else [conv(x) for x in m["objs"]]
     return {"objs": o["objs"], "log": o["log"]}, {"objs": mo, "log": m["log"]}
@@ -210,7 +263,7 @@ def oracle(case, o):
     if not all(o["links"]):
         out.append(("target-links", "some element's target is not the very next object: %r" % (o["links"],)))
     for e, got in zip(elems, o["objs"]):
-        if got["ctor"] != e["ctor"] or got["args"] != e["args"] or got["kwargs"] != sorted(e["kwargs"]):
+        if got["ctor"] != e["ctor"] or got["args"] != e["args"] or got["kwargs"] != sorted(e["kwargs"], key=lambda kv: kv[0]):
             out.append(("arguments", "element %d constructed with %r / %r, configured %r / %r" % (e["ctor"], got["args"], got["kwargs"], e["args"], e["kwargs"])))
             break
     return out
